@@ -3,8 +3,15 @@ package main
 import (
 	"encoding/json"
 	"fmt"
+	"os"
+	"path/filepath"
+	"regexp"
+	"runtime"
 	"sort"
+	"strconv"
 	"strings"
+	"sync"
+	"time"
 )
 
 // SemRec is one terminal state of the abstract machine emitted by a program family:
@@ -274,4 +281,97 @@ func replaySemCase(o *SemOpts) func(c *Ctx, v *Violation) {
 			}
 		})
 	}
+}
+
+var reRuntimeLine = regexp.MustCompile(`(?m)^\[line (\d+)\]\s*$`)
+
+// compareSemCLI checks a whole-process run of the executable against the prescribed behaviour:
+// stdout bytes, exit status (0 / 70), diagnostics only on stderr, first diagnostic's line.
+func compareSemCLI(rec *SemRec, r *CLIRun) (string, string) {
+	if r.Killed {
+		return "cli:no-termination", "the process did not finish within the time limit"
+	}
+	if strings.Contains(r.Err, "panic:") || strings.Contains(r.Err, "fatal error:") || strings.Contains(r.Err, "goroutine ") || r.Exit == 2 {
+		return "cli:abnormal-termination", clip(r.Err, 300)
+	}
+	wantExit := 0
+	if rec.Status == "error" {
+		wantExit = 70
+	}
+	if idx, what, detail := matchOut(rec.Out, r.Out, false); idx >= 0 {
+		return "cli:out:" + what, fmt.Sprintf("output record %d: %s", idx, detail)
+	}
+	if r.Exit != wantExit {
+		return fmt.Sprintf("cli:exit:%d->%d", wantExit, r.Exit), fmt.Sprintf("exit status %d, expected %d; stderr %q", r.Exit, wantExit, clip(r.Err, 120))
+	}
+	if rec.Status == "done" && r.Err != "" {
+		return "cli:stderr-on-clean-run", clip(r.Err, 120)
+	}
+	if rec.Status == "error" {
+		m := reRuntimeLine.FindStringSubmatch(r.Err)
+		if m == nil {
+			return "cli:diag-missing", fmt.Sprintf("no diagnostic with a line on stderr: %q", clip(r.Err, 120))
+		}
+		if n, _ := strconv.Atoi(m[1]); n != rec.Diags[0].Ln {
+			return "cli:diag-line", fmt.Sprintf("first diagnostic names line %d, expected %d", n, rec.Diags[0].Ln)
+		}
+	}
+	return "", ""
+}
+
+// replaySemCLI runs (a sample of) the records of a family file through the built executable.
+func (c *Ctx) replaySemCLI(path string, o *SemOpts, every int, timeout time.Duration) int64 {
+	type job struct {
+		rec *SemRec
+		src string
+	}
+	jobs := make(chan job, 64)
+	var n int64
+	var wg sync.WaitGroup
+	var mu sync.Mutex
+	for w := 0; w < runtime.NumCPU(); w++ {
+		wg.Add(1)
+		go func(w int) {
+			defer wg.Done()
+			i := 0
+			for j := range jobs {
+				i++
+				f := filepath.Join(c.Work, fmt.Sprintf("cli_%d_%d.bn", w, i%4))
+				os.WriteFile(f, []byte(j.src), 0644)
+				r := c.runCLI([]string{f}, stdinText(j.rec.Stdin), timeout)
+				what, detail := compareSemCLI(j.rec, &r)
+				mu.Lock()
+				n++
+				if what != "" {
+					cl := j.rec.Cls
+					c.violation(c.Prop+"|"+j.rec.Fam+"|"+cl+"|"+what, j.rec.Key, map[string]interface{}{
+						"mode": "cli", "src": j.src, "stdin": stdinText(j.rec.Stdin), "expected": j.rec, "detail": detail,
+						"observed": map[string]interface{}{"out": r.Out, "err": r.Err, "exit": r.Exit, "killed": r.Killed}})
+				}
+				mu.Unlock()
+			}
+		}(w)
+	}
+	k := 0
+	forEachLine(path, func(line []byte) error {
+		var rec SemRec
+		if json.Unmarshal(line, &rec) != nil || rec.Status == "fuel" || rec.Status == "unspec" {
+			return nil
+		}
+		k++
+		if every > 1 && (k+c.Seed)%every != 0 {
+			return nil
+		}
+		src, err := Render(rec.Toks, o.Render)
+		if err != nil {
+			return nil
+		}
+		jobs <- job{&rec, src}
+		return nil
+	})
+	close(jobs)
+	wg.Wait()
+	c.addInt("cli_runs", n)
+	c.addInt("traces_validated_against_impl", n)
+	return n
 }
